@@ -435,8 +435,27 @@ def main():
 
 
 MANIFEST = {
-    "claimed": False,
-    "text": "",
-    "note": "",
+    "claimed": True,
+    "text": "Theorems (Coq, no bound on prefix structure): for every list of subnets whose masks fit their family (IPv4 /0-/32, "
+            "IPv6 /0-/128; overlapping, nested, adjacent, duplicated, unmasked, any order) and every IPv4 / IPv6 / IPv4-mapped "
+            "address, IpFilter::new followed by is_in neither panics nor runs out of fuel and answers exactly 'some configured "
+            "subnet contains the address' (naive mask comparison by canonical family) - C31_lookup_spec, proved through the "
+            "node-array trie (mask, sort, counts/split_at buckets, <=4-bit nibble runs, union-coverage sweep, popcount child "
+            "index, shared array with preallocated children), for lists of fewer than 130 150 524 subnets (the code stores "
+            "child offsets as u32); C31_tree_spec the same for BitTree::create/lookup on arbitrary 128-bit prefixes; C31_mapped; "
+            "C31_parse / C31_parse_errors / C31_parse_wf: from_str accepts exactly when '/' is present, address and mask parse "
+            "and the mask fits the canonicalised family (mapped ::ffff:a.b.c.d/m needs 96<=m<=128 and becomes a.b.c.d/(m-96)), "
+            "and every accepted subnet satisfies the hypothesis of C31_lookup_spec. Tie: every run compares is_in on generated "
+            "lists (shared leading nibbles, lengths around multiples of 4, covering sibling sets, duplicates, boundary "
+            "addresses +-1, mapped forms) AND both node arrays (length + hash) with the model inside Coq, and from_str on "
+            "generated/mutated strings; a python monitor evaluates naive containment independently.",
+    "note": "Trusted: Coq kernel + vm_compute; hand-written model coq/Model/IpFilter.v (release semantics: wrapping "
+            "arithmetic, masked shift amounts; explicit panic sites for the 3 indexing sites and split_at_mut, census-checked); "
+            "slice::sort modelled as insertion sort (any sort gives the same list for a total order on (u128,u8)); std "
+            "IpAddr::to_canonical modelled, str::parse::<IpAddr>/<u8> and split_once are oracles whose results the harness "
+            "reports; harness + python driver. Reading: containment is by canonical address family, as in the repository's "
+            "fuzz oracle (an IPv4-mapped address is matched against IPv4 subnets only; a V6 subnet such as ::/0 does not list "
+            "::ffff:a.b.c.d). Hypothesis 1+33n < 2^32 on the list length (u32 child offsets). Print Assumptions: closed under "
+            "the global context for all six theorems.",
     "design_ref": "DESIGN.md 3 C31",
 }
